@@ -52,20 +52,18 @@ Qed.
 
 (* ------------------------------------------------------------------ the key test of GetValue is exact *)
 (* same length and same bytes: no prefix matching, nothing special about NUL bytes or the empty key;
-   the only other way to match is the default-constructed node (key_ = nullptr) against the empty key *)
-Lemma node_matches_spec : forall key n,
-  node_matches key n = true <-> (n_key n = Some key \/ (n_key n = None /\ key = [])).
+   the default-constructed node (key_ = nullptr) of an empty batch matches nothing *)
+Lemma node_matches_spec : forall key n, node_matches key n = true <-> n_key n = Some key.
 Proof.
   intros key [k v nx]. unfold node_matches. cbn [n_key]. destruct k as [k|].
   - destruct (Nat.eqb (length key) (length k)) eqn:E.
-    + apply Nat.eqb_eq in E. rewrite <- E, firstn_all. rewrite bytes_eqb_eq. split.
-      * intro; subst; left; reflexivity.
-      * intros [H|[H _]]; [congruence | discriminate].
-    + split; [discriminate|]. intros [H|[H _]]; [|discriminate]. inversion H; subst.
-      rewrite Nat.eqb_refl in E. discriminate.
-  - split.
-    + intro H. apply Nat.eqb_eq in H. right. split; [reflexivity|]. destruct key; [reflexivity | discriminate].
-    + intros [H|[_ H]]; [discriminate|]. subst. reflexivity.
+    + apply Nat.eqb_eq in E. rewrite <- E, firstn_all. split.
+      * intro H. apply orb_true_iff in H. destruct H as [H|H].
+        -- apply Nat.eqb_eq in H. destruct key; [|discriminate]. destruct k; [reflexivity | discriminate].
+        -- apply bytes_eqb_eq in H. subst. reflexivity.
+      * intro H. inversion H; subst. rewrite bytes_eqb_refl. apply orb_true_r.
+    + split; [discriminate|]. intro H. inversion H; subst. rewrite Nat.eqb_refl in E. discriminate.
+  - split; discriminate.
 Qed.
 
 (* ------------------------------------------------------------------ chains are stable under allocation *)
@@ -94,32 +92,25 @@ Qed.
 Definition strip (l : list node) : list (bytes * value) :=
   flat_map (fun n => match n_key n with Some k => [(k, n_val n)] | None => [] end) l.
 Definition binds (h : heap) (c : ctx) : list (bytes * value) := strip (chain h c).
-Definition no_phantom (l : list node) : Prop := Forall (fun n => n_key n <> None) l.
 
 Lemma find_assoc : forall key l,
-  (key <> [] \/ no_phantom l) ->
   match find (node_matches key) l with Some n => n_val n | None => vnone end = assoc key (strip l).
 Proof.
-  intros key l H. unfold assoc. induction l as [|n l IH]; [reflexivity|].
-  assert (H' : key <> [] \/ no_phantom l).
-  { destruct H as [H|H]; [left; exact H | right; inversion H; assumption]. }
-  specialize (IH H'). cbn [find strip flat_map].
+  intros key l. unfold assoc. induction l as [|n l IH]; [reflexivity|].
+  cbn [find strip flat_map].
   destruct (node_matches key n) eqn:M.
-  - apply node_matches_spec in M. destruct M as [M|[M K]].
-    + rewrite M. cbn [app find fst]. rewrite bytes_eqb_refl. reflexivity.
-    + exfalso. destruct H as [H|H]; [contradiction | inversion H; contradiction].
+  - apply node_matches_spec in M. rewrite M. cbn [app find fst]. rewrite bytes_eqb_refl. reflexivity.
   - destruct (n_key n) as [k|] eqn:K.
     + cbn [app find fst]. destruct (bytes_eqb k key) eqn:E.
       * apply bytes_eqb_eq in E. subst k.
-        assert (node_matches key n = true) by (apply node_matches_spec; left; exact K). congruence.
+        assert (node_matches key n = true) by (apply node_matches_spec; exact K). congruence.
       * exact IH.
     + cbn [app]. exact IH.
 Qed.
 
 (* GetValue answers from the association list *)
-Lemma get_value_assoc : forall h c key,
-  (key <> [] \/ no_phantom (chain h c)) -> get_value h c key = assoc key (binds h c).
-Proof. intros. unfold get_value, binds. apply find_assoc. assumption. Qed.
+Lemma get_value_assoc : forall h c key, get_value h c key = assoc key (binds h c).
+Proof. intros. unfold get_value, binds. apply find_assoc. Qed.
 
 (* ------------------------------------------------------------------ SetValue *)
 Lemma set_value_spec : forall h c k v,
@@ -130,12 +121,6 @@ Proof. intros. cbn. split; reflexivity. Qed.
 Lemma binds_set_value : forall h c k v,
   binds (fst (set_value h c k v)) (snd (set_value h c k v)) = (k, v) :: binds h c.
 Proof. intros. unfold set_value, alloc, binds. cbn [fst snd]. rewrite chain_cons_new. reflexivity. Qed.
-
-Lemma no_phantom_set_value : forall h c k v,
-  no_phantom (chain h c) -> no_phantom (chain (fst (set_value h c k v)) (snd (set_value h c k v))).
-Proof.
-  intros. unfold set_value, alloc. cbn [fst snd]. rewrite chain_cons_new. constructor; [discriminate | exact H].
-Qed.
 
 (* ------------------------------------------------------------------ SetValues *)
 Lemma alloc_batch_heap : forall b h c,
@@ -174,16 +159,6 @@ Proof.
   f_equal. exact IH.
 Qed.
 
-Lemma alloc_batch_no_phantom : forall b h c,
-  ctx_ok h c -> no_phantom (chain h c) ->
-  no_phantom (chain (fst (alloc_batch h b c)) (snd (alloc_batch h b c))).
-Proof.
-  induction b as [|[k v] b IH]; intros h c H P; [exact P|].
-  cbn [alloc_batch]. specialize (IH h c H P).
-  destruct (alloc_batch h b c) as [h1 c1] eqn:A. cbn [fst snd] in IH.
-  unfold alloc. cbn [fst snd]. rewrite chain_cons_new. constructor; [discriminate | exact IH].
-Qed.
-
 (* everything SetValues / SetValue can do to the heap: put new nodes in front *)
 Lemma set_values_heap : forall h c b, exists ex, fst (set_values h c b) = ex ++ h /\ ex <> [].
 Proof.
@@ -213,19 +188,12 @@ Proof.
   - unfold set_values. apply alloc_batch_binds. exact H.
 Qed.
 
-Lemma set_values_no_phantom : forall h c b,
-  b <> [] -> ctx_ok h c -> no_phantom (chain h c) ->
-  no_phantom (chain (fst (set_values h c b)) (snd (set_values h c b))).
-Proof.
-  intros h c [|p b] B H P; [contradiction|]. unfold set_values. apply alloc_batch_no_phantom; assumption.
-Qed.
-
 (* ------------------------------------------------------------------ latest binding wins *)
 Theorem set_value_get_same : forall h c k v,
   get_value (fst (set_value h c k v)) (snd (set_value h c k v)) k = v.
 Proof.
   intros. unfold get_value, set_value, alloc. cbn [fst snd]. rewrite chain_cons_new. cbn [find].
-  assert (M : node_matches k (mk_node (Some k) v c) = true) by (apply node_matches_spec; left; reflexivity).
+  assert (M : node_matches k (mk_node (Some k) v c) = true) by (apply node_matches_spec; reflexivity).
   rewrite M. reflexivity.
 Qed.
 
@@ -235,7 +203,7 @@ Theorem set_value_get_other : forall h c k v k',
 Proof.
   intros. unfold get_value, set_value, alloc. cbn [fst snd]. rewrite chain_cons_new. cbn [find n_next].
   destruct (node_matches k' (mk_node (Some k) v c)) eqn:M; [|reflexivity].
-  apply node_matches_spec in M. cbn in M. destruct M as [M|[M _]]; [congruence | discriminate].
+  apply node_matches_spec in M. cbn in M. congruence.
 Qed.
 
 (* keys that differ only by a suffix, a NUL or case never answer for each other *)
